@@ -37,6 +37,9 @@ import (
 
 const (
 	hA, hB = "a.example", "b.example"
+	// alias scenarios: registry A is configured under a name that differs from its DNS name and is
+	// also listed, spelled as a URL, among the mirrors of hU
+	hAlias, hU = "alias-a.example", "up.example"
 	repo   = "proj/r"
 )
 
@@ -49,7 +52,8 @@ func (c Cfg) String() string { return fmt.Sprintf("%s concurrent=%d", c.Op, c.Li
 
 var ops = []string{"manifest-get", "manifest-head", "manifest-put", "manifest-delete", "blob-get", "blob-get-unsized", "blob-get-rewind", "blob-get-unread", "blob-head", "blob-put", "blob-put-chunked",
 	"blob-delete", "blob-mount", "blob-copy-cross", "blob-copy-same-host", "tag-list", "tag-delete", "referrers", "repo-list", "image-copy-cross", "image-copy-index", "image-copy-to-layout", "image-copy-from-layout",
-	"referrer-put-fallback", "referrer-delete-fallback", "image-copy-referrers", "blob-put-noseek", "blob-put-chunked-noseek"}
+	"referrer-put-fallback", "referrer-delete-fallback", "image-copy-referrers", "blob-put-noseek", "blob-put-chunked-noseek",
+	"alias-name-first", "alias-mirror-first"}
 
 // noSeek hides the Seek method of a reader: the body of a request fed from it cannot be produced twice
 type noSeek struct{ r io.Reader }
@@ -86,6 +90,9 @@ type result struct {
 	phase    string // op, probe-a, probe-b, probe-layout, done
 	probeErr []string
 	panic    any
+	err2     error  // alias scenarios: result of the second caller
+	log      []string
+	over     string // first request that arrived at a host while as many requests as its limit were in flight there
 }
 
 func layerOf(g *graphs.Graph) (string, []byte) {
@@ -141,12 +148,26 @@ func run(t *testing.T, c *explore.Ctx, cfg Cfg, scratch string) *result {
 				cancel()
 			}
 		}()
+		alias := strings.HasPrefix(cfg.Op, "alias-")
+		if alias {
+			// hU holds nothing: what is asked of it is served by its mirror, registry A
+			net.AddHost(hU, f)
+		}
 		var sched *qsched.Sched
+		// a request is in flight from its arrival to the return of the round trip; reghttp takes the
+		// slot before it sends and keeps it at least that long, so more requests in flight at one
+		// registry than its limit are more holders than the throttle admits
+		inflight := map[string]int{}
 		net.OnArrive = func(e *modelreg.Entry) {
+			inflight[e.Host]++
+			if inflight[e.Host] > cfg.Limit && res.over == "" && res.phase == "op" {
+				res.over = fmt.Sprintf("%s %s%s arrived while %d request(s) were in flight at %s (limit %d)", e.Method, e.Host, e.Path, inflight[e.Host]-1, e.Host, cfg.Limit)
+			}
 			if sched != nil {
 				sched.Point(qsched.KHTTP, "")
 			}
 		}
+		net.OnReturn = func(e *modelreg.Entry) { inflight[e.Host]-- }
 		net.Decide = func(e *modelreg.Entry) *modelreg.Answer {
 			if res.phase != "op" {
 				return nil
@@ -189,14 +210,43 @@ func run(t *testing.T, c *explore.Ctx, cfg Cfg, scratch string) *result {
 			{Name: hA, Hostname: hA, TLS: config.TLSDisabled, BlobChunk: 3, BlobMax: 6, ReqConcurrent: int64(cfg.Limit)},
 			{Name: hB, Hostname: hB, TLS: config.TLSDisabled, BlobChunk: 3, BlobMax: 6, ReqConcurrent: int64(cfg.Limit)},
 		}
+		probes := []string{hA, hB}
+		if alias {
+			hosts[0].Name = hAlias
+			hosts = append(hosts, config.Host{Name: hU, Hostname: hU, TLS: config.TLSDisabled, ReqConcurrent: int64(cfg.Limit), Mirrors: []string{"http://" + hAlias}})
+			probes = []string{hAlias, hU}
+		}
 		rc := rcenv.New(net, nil, rcenv.Opts{Hosts: hosts, RetryLimit: 3})
-		res.out = qsched.Run(c, qsched.Config{Branch: map[qsched.Kind]bool{}}, map[string]func(*qsched.Sched){"op": func(s *qsched.Sched) {
+		branch := map[qsched.Kind]bool{}
+		threads := map[string]func(*qsched.Sched){}
+		names := []string{"op"}
+		done := make(chan struct{})
+		if alias {
+			// two callers reach registry A at the same time, one by its configured name, one through the
+			// mirror entry of hU: pre-emptions at request arrivals are part of the deviation bound
+			branch[qsched.KHTTP] = true
+			names = []string{"op", "second"}
+			threads["second"] = func(s *qsched.Sched) {
+				defer close(done)
+				sched = s
+				h2 := hU
+				if cfg.Op == "alias-mirror-first" {
+					h2 = hAlias
+				}
+				r2, _ := ref.New(h2 + "/" + repo + ":v1")
+				_, res.err2 = rc.ManifestGet(ctx, r2)
+			}
+		} else {
+			close(done)
+		}
+		threads["op"] = func(s *qsched.Sched) {
 			sched = s
 			res.phase = "op"
 			res.err = doOp(ctx, rc, cfg.Op, lay)
+			<-done
 			// all holders have finished: one more request per host must be admitted
 			bg := context.Background()
-			for _, h := range []string{hA, hB} {
+			for _, h := range probes {
 				res.phase = "probe-" + h
 				pr, _ := ref.New(h + "/" + repo + ":v1")
 				if _, err := rc.ManifestHead(bg, pr); err != nil && h == hA && !strings.Contains(cfg.Op, "delete") {
@@ -212,7 +262,11 @@ func run(t *testing.T, c *explore.Ctx, cfg Cfg, scratch string) *result {
 				}
 			}
 			res.phase = "done"
-		}}, []string{"op"})
+		}
+		res.out = qsched.Run(c, qsched.Config{Branch: branch}, threads, names)
+		for _, e := range net.Log {
+			res.log = append(res.log, e.String())
+		}
 		sched = nil
 	})
 	res.panic = other
@@ -224,6 +278,14 @@ func doOp(ctx context.Context, rc *regclient.RegClient, op string, lay string) e
 	ld, lb := layerOf(g1)
 	ldesc := descriptor.Descriptor{Digest: digest.Digest(ld), Size: int64(len(lb))}
 	switch op {
+	case "alias-name-first", "alias-mirror-first":
+		h := hAlias
+		if op == "alias-mirror-first" {
+			h = hU
+		}
+		r, _ := ref.New(h + "/" + repo + ":v1")
+		_, err := rc.ManifestGet(ctx, r)
+		return err
 	case "manifest-get":
 		_, err := rc.ManifestGet(ctx, rTag)
 		return err
@@ -373,6 +435,9 @@ func judge(cfg Cfg, r *result) (string, string) {
 	if r.phase != "done" {
 		return "harness", "execution ended in phase " + r.phase
 	}
+	if r.over != "" {
+		return "use-site-over-limit op=" + cfg.Op + " faults=" + kinds, fmt.Sprintf("more requests in flight at one registry than its throttle admits: %s; faults %v", r.over, r.faults)
+	}
 	return "", ""
 }
 
@@ -396,7 +461,7 @@ type replay struct {
 func TestVerifC17Use(t *testing.T) {
 	rec := ev.New()
 	defer rec.Flush(t)
-	rec.Rule("use sites of the throttles: operation ∈ {" + strings.Join(ops, ", ") + "} through one client whose hosts admit ONE request at a time (thorough: also two), registry sources/targets and an OCI layout; every sequence of at most k answers from {500, 429, connection reset, body cut in half, 404, 401, cancellation of the caller's context} over the requests of the operation (k=2; 1 for image copies; thorough 3 / 2). Oracle: the operation returns, and afterwards one more request to each host and one more write to the layout are admitted (a slot that was not given back, or that its holder asks for again, blocks them for ever and shows as a deadlock of the bubble). distinct_nontrivial = distinct (operation, fault list, outcome)")
+	rec.Rule("use sites of the throttles: operation ∈ {" + strings.Join(ops, ", ") + "} through one client whose hosts admit ONE request at a time (thorough: also two), registry sources/targets and an OCI layout; the two alias-… operations are two concurrent manifest fetches that reach one registry under two spellings (its configured name, which differs from its DNS name, and a URL-style mirror entry of another host), with pre-emptions at request arrivals counted in the same bound; every sequence of at most k answers from {500, 429, connection reset, body cut in half, 404, 401, cancellation of the caller's context} over the requests of the operation (k=2; 1 for image copies; thorough 3 / 2). Oracle: the operation returns, and afterwards one more request to each host and one more write to the layout are admitted (a slot that was not given back, or that its holder asks for again, blocks them for ever and shows as a deadlock of the bubble); at no request arrival are more requests in flight at one registry than its limit. distinct_nontrivial = distinct (operation, fault list, outcome)")
 	rec.Assume("operations run under the scheduler without branching (request arrivals granted in goroutine-creation order); interleavings of the queue itself are the subject of the other step")
 	if rd := rec.ReplayData(); rd != nil {
 		var rp replay
@@ -406,7 +471,7 @@ func TestVerifC17Use(t *testing.T) {
 		}
 		r := run(t, explore.NewCtx(rp.Choices), rp.Cfg, rec.Scratch)
 		k, m := judge(rp.Cfg, r)
-		fmt.Printf("replay %s choices=%v err=%v faults=%v phase=%s probes=%v\nverdict: %s %s\n", rp.Cfg, rp.Choices, r.err, r.faults, r.phase, r.probeErr, k, m)
+		fmt.Printf("replay %s choices=%v err=%v err2=%v faults=%v phase=%s probes=%v\nrequests:\n  %s\nverdict: %s %s\n", rp.Cfg, rp.Choices, r.err, r.err2, r.faults, r.phase, r.probeErr, strings.Join(r.log, "\n  "), k, m)
 		rec.Eval(1)
 		if k != "" {
 			rec.Violation(k, m, rp)
